@@ -230,6 +230,15 @@ func drawDetCase(rt *rapid.T) (*DetCase, bool) {
 			b.WriteString("trace(M, M2, Inner);\ntrace(type(M), type(M2), type(Inner.x), type(Inner.y));\n")
 			nontrivial = true
 		}
+		if gen.Uniform(rt, "bytekeys", 3) == 0 {
+			// a nested map whose keys are not valid UTF-8 and differ in the odd
+			// bytes only (file names in an old encoding): every key is its own entry
+			bk := lang.Hash(lang.Pair{K: lang.Str("caf\xe9.txt"), V: lang.Int(1)}, lang.Pair{K: lang.Str("caf\xe8.txt"), V: lang.Int(2)},
+				lang.Pair{K: lang.Str("\xff"), V: lang.Int(3)}, lang.Pair{K: lang.Str("\xfe"), V: lang.Int(4)}, lang.Pair{K: lang.Str("caf\ufffd.txt"), V: lang.Int(5)})
+			c.Obj.Fields = append(c.Obj.Fields, eng.Field{Name: "B", V: bk})
+			b.WriteString("trace(len(B), len(keys(B)), string(B));\nforeach k, v in B { trace(v, len(k)); }\n")
+			nontrivial = true
+		}
 		if rapid.Bool().Draw(rt, "dollarkeys") {
 			// keys that differ only by the legacy $ prefix, and by case
 			c.Obj.Fields = append(c.Obj.Fields, eng.Field{Name: "$N", V: lang.Int(4)}, eng.Field{Name: "n", V: lang.Int(5)}, eng.Field{Name: "$M", V: lang.Str("other")}, eng.Field{Name: "$$N", V: lang.Int(6)})
